@@ -13,6 +13,12 @@ hooks of the `verif-hooks` feature sit (the site names are in `Pc.site`):
                    ‖ per victim: [storage.remove] ‖ entry_count -= 1 ‖ memory_usage -= size
   remove           [storage.remove] ‖ entry_count -= 1 ‖ memory_usage -= size
   clear            [storage.clear] ‖ entry_count = 0 ‖ memory_usage = 0
+  sweep            one tick of the background cleanup task (`start_cleanup_task`, started by
+                   `new_with_cleanup`): [iterate the map, collect the keys of expired entries]
+                   ‖ per collected key: [storage.remove_if(key, |_, e| e.is_expired()) — the entry
+                   stored NOW is tested, and its size is the one booked]
+                   ‖ entry_count -= 1 ‖ memory_usage -= size of the entry removed
+                   (sites `mem.cleanup.before_remove / before_count / before_bytes`)
 
 Shared state = `MemCache.State` of the sequential model (store, the two counters as unbounded
 integers, a logical clock that ticks once per step and provides the LRU / FIFO time stamps).
@@ -22,7 +28,10 @@ decrement that overtakes the matching increment makes the next `put` see a huge 
 
 The victim choice of an eviction snapshot is a parameter `vic` (every theorem holds for every
 choice); the driver uses `MemCache.detVictims` (stable sort by the policy's time stamp, all
-stamps distinct).  Metrics (`record_get`, …) are not modelled.  Assumed atomic: each DashMap
+stamps distinct).  The order in which the map iteration of a sweep hands out the keys (DashMap:
+shard / bucket order under a per-map random hasher) is a parameter of the operation as well
+(`Op.sweep ord`: `ord` only ORDERS the expired keys the model itself finds, `sweepKeys`); every
+theorem holds for every `ord`.  Metrics (`record_get`, …) are not modelled.  Assumed atomic: each DashMap
 call (including the whole-map `iter` and `clear`, which the real map performs shard by shard),
 each atomic counter access; `Ordering::Relaxed` effects are outside the model.
 -/
@@ -46,6 +55,9 @@ inductive Op where
   | put (k : Key) (v : Val) (short : Bool)
   | remove (k : Key)
   | clear
+  /-- one tick of the background cleanup task; `ord` = the order in which the map iteration
+  hands out keys (keys it does not list come last, in store order) -/
+  | sweep (ord : List Key)
   deriving Repr, DecidableEq
 
 inductive Out where
@@ -86,6 +98,11 @@ inductive Pc where
   | rBytes (sz : Nat)
   | cCount
   | cBytes
+  /-- cleanup task: about to `remove_if(k, is_expired)`; `ks` = collected keys after it -/
+  | wRemove (k : Key) (ks : List Key)
+  /-- cleanup task: removed an entry of `sz` bytes (the entry that WAS stored), counters next -/
+  | wCount (sz : Nat) (ks : List Key)
+  | wBytes (sz : Nat) (ks : List Key)
   deriving Repr, DecidableEq
 
 structure Thread where
@@ -111,6 +128,22 @@ def afterVictim (a : PutArgs) : List Key → Pc
   | [] => .pInsert a
   | k :: vs => .eRemove a k vs
 
+/-- continue the cleanup loop with the remaining collected keys, or finish the tick -/
+def afterSweep : List Key → Pc
+  | [] => .idle
+  | k :: ks => .wRemove k ks
+
+/-- is the entry stored under `k` one whose TTL has ended? -/
+def isShortAt (st : Store) (k : Key) : Bool :=
+  match lookup k st with
+  | some e => e.short
+  | none => false
+
+/-- the collection pass of the cleanup task: the keys of the expired entries, in the order the
+iteration hands them out (`ord` first, keys `ord` does not mention after them in store order) -/
+def sweepKeys (ord : List Key) (st : Store) : List Key :=
+  ord.filter (isShortAt st) ++ (MemCache.expiredKeys st).filter (fun k => !ord.contains k)
+
 /-- first step of an operation -/
 def startOp (cfg : Config) (s : State) (op : Op) : State × Pc × List Out × List Ev :=
   match op with
@@ -134,6 +167,7 @@ def startOp (cfg : Config) (s : State) (op : Op) : State × Pc × List Out × Li
     | some e => ({ s with store := erase k s.store }, .rCount e.size, [.bool true], [.remove k true])
     | none => (s, .idle, [.bool false], [.remove k false])
   | .clear => ({ s with store := [] }, .cCount, [.unit], [.clear])
+  | .sweep ord => (s, afterSweep (sweepKeys ord s.store), [.unit], [])
 
 /-- a later step of an operation: `(state, pc, answer, events)` -/
 def contOp (cfg : Config) (vic : Store → Nat → List Key) (s : State) :
@@ -173,6 +207,15 @@ def contOp (cfg : Config) (vic : Store → Nat → List Key) (s : State) :
   | .rBytes sz => ({ s with bytes := s.bytes - (sz : Int) }, .idle, [], [])
   | .cCount => ({ s with count := 0 }, .cBytes, [], [])
   | .cBytes => ({ s with bytes := 0 }, .idle, [], [])
+  | .wRemove k ks =>
+    -- `storage.remove_if(&key, |_, e| e.is_expired())`: the entry stored now decides
+    match lookup k s.store with
+    | some e =>
+      if e.short then ({ s with store := erase k s.store }, .wCount e.size ks, [], [.drop k])
+      else (s, afterSweep ks, [], [])
+    | none => (s, afterSweep ks, [], [])
+  | .wCount sz ks => ({ s with count := s.count - 1 }, .wBytes sz ks, [], [])
+  | .wBytes sz ks => ({ s with bytes := s.bytes - (sz : Int) }, afterSweep ks, [], [])
 
 /-- the operation an answer recorded by a continuation step belongs to: only `put` answers
 late (at its insert step) -/
@@ -216,6 +259,7 @@ def Pc.site : Pc → Char
   | .pEvict _ => 'g' | .pInsert _ => 'h' | .pReplBytes _ _ => 'i' | .pNewCount _ => 'j' | .pNewBytes _ => 'k'
   | .rCount _ => 'l' | .rBytes _ => 'm' | .cCount => 'n' | .cBytes => 'o'
   | .eLoad _ => 'p' | .eSnap _ _ => 'q' | .eRemove _ _ _ => 'r' | .eCount _ _ _ => 's' | .eBytes _ _ _ => 't'
+  | .wRemove _ _ => 'u' | .wCount _ _ => 'v' | .wBytes _ _ => 'w'
 
 def Thread.site (t : Thread) : Char := if t.done then 'D' else t.pc.site
 
